@@ -54,6 +54,9 @@ def cases_c02(tier):
         return (not R.is_leaf(node)) and any((R.is_leaf(c) and c[0] == node[0]) or leaf_named_like_parent(c) for c in node[1])
     shared = [t for t in R.trees(5 if tier == "thorough" else 4, agg_tags=("A", "AG"), leaf_tags=("AG", "A"), datas=("x",)) if not leaf_named_like_parent(t)]
     out += [[t, False] for t in shared]
+    # the tag OFX is a tag like any other: below a root of another name, as aggregate and as data element
+    out += [[t, False] for t in R.trees(4 if tier == "thorough" else 3, agg_tags=("WRAP", "OFX"), leaf_tags=("OFX", "B1"), datas=("x",)) if not leaf_named_like_parent(t)]
+    out += [[("WRAP", [("B1", "x"), ("OFX", [("B1", "y")]), ("B1", "z")]), True]]
     nested = [("A", [("A", [("B1", "x")])]), ("A", [("AG", [("A", [("B1", "x")]), ("B1", "y")])]), ("A", [("A", [("A", [])])]), ("A", [("A", []), ("B1", "x"), ("A", [("B1", "y")])])]
     out += [[t, True] for t in nested]
     return out
@@ -80,7 +83,30 @@ def faults(r):
         out.append(("stray-end-tag", r[:s] + "</Q>" + r[s:]))
     out.append(("second-top-level", r + "<A></A>"))
     out.append(("second-top-level-data", r + "<B1>x</B1>"))
+    # the same kinds of junk on a line of its own after the body
+    body = r.rstrip()
+    for kind, junk in (("second-top-level-next-line", "<A></A>"), ("second-document-next-line", body), ("stray-end-tag-next-line", "</Q>"),
+                       ("root-end-tag-again-next-line", "</A>"), ("text-next-line", "zz"), ("data-element-next-line", "<B1>x")):
+        out.append((kind, body + "\n" + junk))
+        out.append((kind + "-crlf", body + "\r\n" + junk + "\r\n"))
     return out
+
+
+V1HDR = "OFXHEADER:100\r\nDATA:OFXSGML\r\nVERSION:102\r\nSECURITY:NONE\r\nENCODING:USASCII\r\nCHARSET:NONE\r\nCOMPRESSION:NONE\r\nOLDFILEUID:NONE\r\nNEWFILEUID:NONE\r\n\r\n"
+V2HDR = '<?xml version="1.0" encoding="UTF-8" standalone="no"?>\n<?OFX OFXHEADER="200" VERSION="203" SECURITY="NONE" OLDFILEUID="NONE" NEWFILEUID="NONE"?>\n'
+
+
+def file_parse(text, hdr):
+    """the whole-file route: header + body through OFXTree.parse (root named OFX, as in a real file)"""
+    import io
+    from ofxtools.Parser import OFXTree
+    t = OFXTree()
+    t.parse(io.BytesIO((hdr + text.replace("<A>", "<OFX>").replace("</A>", "</OFX>")).encode("utf_8")))
+    got = R.tree_of_element(t._root)
+
+    def back(n):
+        return ("A" if n[0] == "OFX" else n[0], n[1] if R.is_leaf(n) else [back(c) for c in n[1]])
+    return back(got)
 
 
 def check_faults(it, fn, a):
@@ -106,6 +132,16 @@ def check_faults(it, fn, a):
                 bad.append((kind, text, f"accepted as {got}"))
             elif ref is not None and (not lib_ok or got != ref):
                 bad.append((kind, text, f"still a valid body of {ref}, library gives {got}"))
+            # the same body as a file (header in front, root named OFX) through OFXTree.parse is judged the same way
+            if text.lstrip().startswith("<A>") and "OFX" not in text:
+                for hdr in (V1HDR, V2HDR):
+                    try:
+                        got3 = file_parse(text, hdr); ok3 = True
+                    except Exception as ex:
+                        got3 = f"{type(ex).__name__}"; ok3 = False
+                    if ok3 != lib_ok or (ok3 and got3 != got):
+                        bad.append((kind + " (as a file through OFXTree.parse)", text, f"TreeBuilder: {got}; OFXTree.parse: {got3}"))
+                        break
             # the same body handed over in two pieces (cut before a tag) is judged the same way
             for cut in chunk_points(text):
                 try:
